@@ -590,7 +590,7 @@ func (c *Ctx) eventInLoop(name string) bool {
 				case ssa.CallInstruction:
 					cn := calleeName(x.Common())
 					if kind == "call" {
-						if cn == subj {
+						if cn == subj || qualifiedCalleeOf(x.Common()) == subj {
 							return true
 						}
 						continue
@@ -1087,7 +1087,16 @@ func (c *Ctx) ghostInLoop(li *loopInfo, g string) bool {
 			name := c.oblName(in, "call")
 			ord := name[strings.LastIndex(name, "#")+1:]
 			callee := calleeName(ci.Common())
-			for _, key := range []string{callee + "#" + ord, callee} {
+			keys := []string{callee + "#" + ord, callee}
+			if q := qualifiedCalleeOf(ci.Common()); q != "" {
+				keys = append(keys, q)
+				for k := range ct.Hooks {
+					if strings.HasPrefix(k, q+"#") {
+						keys = append(keys, k)
+					}
+				}
+			}
+			for _, key := range keys {
 				for _, h := range ct.Hooks[key] {
 					if h.Kind == "ghost" && h.Var == g {
 						return true
